@@ -310,6 +310,15 @@ class CallMixin:
             if p.env is not saved_env and p is not None:
                 p.env = dict(saved_env)
 
+    def all_but_names(self, m):
+        names = []
+        for a in m.args:
+            if isinstance(a, ast.Name):
+                names.extend(self.specs.consts[a.id][1])
+            else:
+                names.append(ast.literal_eval(a))
+        return names
+
     def eval_lets(self, c, p, sfc):
         for (n, e) in c.lets:
             rs = self.ev(e, p, sfc)
@@ -327,7 +336,10 @@ class CallMixin:
         if isinstance(m, ast.Attribute):
             r = self.ev(m.value, p, sfc)[0].v
             if isinstance(r, VUnion):
-                r = VRef(r.get('ref'))
+                # the location exists only if the base really is an object (e.g. request.interval may be None)
+                arr = farr(p, m.attr)
+                p.heap['f:' + m.attr] = z3.If(r.is_('ref'), z3.Store(arr, r.get('ref'), fresh('hv_' + m.attr, Val)), arr)
+                return
             store_value(p, m.attr, r.t, VUnion(fresh('hv_' + m.attr, Val)))
         elif isinstance(m, ast.Call) and isinstance(m.func, ast.Name) and m.func.id == 'fields':
             for a in m.args:
@@ -344,7 +356,7 @@ class CallMixin:
         elif isinstance(m, ast.Call) and isinstance(m.func, ast.Name) and m.func.id == 'callbacks':
             p.heap['$cblog'] = fresh('hv_cblog', z3.SeqSort(CbCall))
         elif isinstance(m, ast.Call) and isinstance(m.func, ast.Name) and m.func.id == 'all_but':
-            keep = set('f:' + ast.literal_eval(a) for a in m.args)
+            keep = set('f:' + x for x in self.all_but_names(m))
             keep.add('$cls')
             # arrays first touched after this point denote the post-call heap, not the entry heap
             p.epoch = Path.fresh_name('e').split('!')[1]
@@ -561,6 +573,7 @@ class CallMixin:
         sfc.old = fc.old
         sfc.unfold_depth = getattr(fc, 'unfold_depth', 0)
         sfc.in_quant = getattr(fc, 'in_quant', False)
+        sfc.bound = getattr(fc, 'bound', {})
         saved = p.env
         p.env = {}
         for v, (n, t) in zip(vs, f.params):
@@ -585,6 +598,7 @@ class CallMixin:
         env, heap, epoch = fc.old
         q = p.fork()
         q.env = dict(env)
+        q.env.update(getattr(fc, 'bound', {}))     # quantifier-bound variables are state-independent
         q.heap = dict(heap)
         q.epoch = epoch
         n0 = len(q.pc)
@@ -788,6 +802,9 @@ class CallMixin:
         qfc.old = fc.old
         qfc.result = fc.result
         qfc.in_quant = True
+        qfc.bound = dict(getattr(fc, 'bound', {}))
+        for n, b in zip(names, bound):
+            qfc.bound[n] = VInt(b)
         n0 = len(p.pc)
         try:
             body = self.spec_bool(lam.body, p, qfc)
@@ -810,10 +827,37 @@ class CallMixin:
         if forall:
             if inner:
                 body = z3.Implies(z3.And(*inner), body)
+            pats = self._patterns(body, bound)
+            if pats:
+                return [Res(p, VBool(z3.ForAll(bound, body, patterns=pats)))]
             return [Res(p, VBool(z3.ForAll(bound, body)))]
         if inner:
             body = z3.And(body, *inner)
         return [Res(p, VBool(z3.Exists(bound, body)))]
+
+    def _patterns(self, body, bound):
+        """triggers: selects on the container arrays ($dom / $val / $dq) whose last index is the bound variable"""
+        if len(bound) != 1:
+            return None
+        b = bound[0]
+        found = {}
+        seen = set()
+        stack = [body]
+        while stack:
+            t = stack.pop()
+            if t.get_id() in seen:
+                continue
+            seen.add(t.get_id())
+            if z3.is_app(t):
+                if t.decl().kind() == z3.Z3_OP_SELECT and t.num_args() == 3 and t.arg(2).eq(b) and not self._mentions(t.arg(1), b) \
+                        and not self._mentions(t.arg(0), b):
+                    found[t.sexpr()] = t
+                stack.extend(t.children())
+            elif z3.is_quantifier(t):
+                return None
+        if not found:
+            return None
+        return list(found.values())[:4]
 
     def _qid(self):
         self._qn = getattr(self, '_qn', 0) + 1
@@ -870,7 +914,7 @@ class CallMixin:
         k = self.ev(node.args[1], p, fc)[0].v
         if isinstance(d, VUnion):
             d = VRef(d.get('ref'))
-        return [Res(p, VBool(z3.Select(harr(p, '$dom'), d.t, self.key_term(k))))]
+        return [Res(p, VBool(z3.Select(harr(p, '$dom'), d.t, self.key_term(k, p))))]
 
     def sp_unchanged(self, node, p, fc):
         # unchanged(x.f, ...): field values equal to their old() values
